@@ -636,19 +636,43 @@ def run(ctx: Any, prog: Program) -> None:
         r, w_ = table(pb, v), table(eb, v)
         ctx.check('C14.X2', r == w_, dmx, eb, f'binary version {v}: reader uses string-table formats {r}, writer {w_}', func='Element.export_binary', text=f'string table formats v{v}')
     for fn, nm in ((pb, 'parse_bin'), (eb, 'export_binary')):
+        def expand_local(t_: ast.AST) -> ast.AST:
+            # `time_allowed = version >= 3` ... `if attr.type is TIME and not time_allowed`: the local's definition stands for it
+            class _Sub(ast.NodeTransformer):
+                def visit_Name(self, node: ast.Name) -> ast.AST:
+                    d_ = [a.value for a in walk_no_nested(fn) if isinstance(a, ast.Assign) and any(isinstance(t, ast.Name) and t.id == node.id for t in a.targets)]
+                    if len(d_) == 1 and isinstance(d_[0], ast.Compare) and isinstance(d_[0].left, ast.Name) and isinstance(d_[0].comparators[0], ast.Constant):
+                        return d_[0]
+                    return node
+            import copy as _copy
+            return _Sub().visit(_copy.deepcopy(t_))
         gate = [n for n in ast.walk(fn) if isinstance(n, ast.If) and any(isinstance(x, ast.Attribute) and x.attr == 'TIME' for x in ast.walk(n.test)) and any(isinstance(s, ast.Raise) for s in n.body)
-                and any(isinstance(c, ast.Compare) and isinstance(c.left, ast.Name) and len(c.ops) == 1 and isinstance(c.comparators[0], ast.Constant) and isinstance(c.comparators[0].value, int) for c in ast.walk(n.test))]
+                and any(isinstance(c, ast.Compare) and isinstance(c.left, ast.Name) and len(c.ops) == 1 and isinstance(c.comparators[0], ast.Constant) and isinstance(c.comparators[0].value, int) for c in ast.walk(expand_local(n.test)))]
         if len(gate) != 1:
             ctx.shape('C14.X2', False, dmx, gate[0] if gate else fn, f'{nm} must reject TIME attributes before binary version 3', func=f'Element.{nm}', text='TIME rejected before v3')
             continue
         # which versions are refused: the version comparison of the gate, decided for every version
-        cmp_ = next(c for c in ast.walk(gate[0].test) if isinstance(c, ast.Compare) and isinstance(c.left, ast.Name) and len(c.ops) == 1 and isinstance(c.comparators[0], ast.Constant) and isinstance(c.comparators[0].value, int))
+        gtest = expand_local(gate[0].test)
+        cmp_ = next(c for c in ast.walk(gtest) if isinstance(c, ast.Compare) and isinstance(c.left, ast.Name) and len(c.ops) == 1 and isinstance(c.comparators[0], ast.Constant) and isinstance(c.comparators[0].value, int))
         k_ = cmp_.comparators[0].value
         opf = {ast.Lt: lambda a, b: a < b, ast.LtE: lambda a, b: a <= b, ast.Gt: lambda a, b: a > b, ast.GtE: lambda a, b: a >= b, ast.Eq: lambda a, b: a == b, ast.NotEq: lambda a, b: a != b}.get(type(cmp_.ops[0]))
         if opf is None:
             ctx.shape('C14.X2', False, dmx, gate[0], f'version comparison `{U(cmp_)}` of the TIME gate not evaluable', func=f'Element.{nm}', text='TIME rejected before v3')
             continue
-        refused = [v for v in range(1, 6) if opf(v, k_)]
+        # the comparison may sit under `not` (`and not time_allowed`): polarity by the number of enclosing negations inside the test
+        neg_ = False
+        def find_neg(t_: ast.AST, n_: bool) -> None:
+            nonlocal neg_
+            if t_ is cmp_:
+                neg_ = n_
+                return
+            if isinstance(t_, ast.UnaryOp) and isinstance(t_.op, ast.Not):
+                find_neg(t_.operand, not n_)
+            else:
+                for ch_ in ast.iter_child_nodes(t_):
+                    find_neg(ch_, n_)
+        find_neg(gtest, False)
+        refused = [v for v in range(1, 6) if opf(v, k_) != neg_]
         ctx.check('C14.X2', refused == [1, 2], dmx, gate[0], f'{nm} refuses TIME attributes for binary versions {refused} (`{U(cmp_)}`): the type exists from version 3 on, so exactly versions 1 and 2 must be refused - '
                   'a TIME value in a version-3 file is valid on the other side', func=f'Element.{nm}', text='TIME rejected before v3')
     # ---- X3 ------------------------------------------------------------------------------------------------
